@@ -193,7 +193,7 @@ class Origin:
         return s
 
 
-def origin(body, op, through_calls=True, max_nodes=400):
+def origin(body, op, through_calls=True, max_nodes=400, _depth=0):
     """Backward def-use closure of an operand (flow-insensitive per local, field-aware for aggregates)."""
     res = Origin()
     seen = set()
@@ -309,13 +309,29 @@ def origin(body, op, through_calls=True, max_nodes=400):
                     res.flags.add('subslice')
         if 1 <= l <= body.nargs:
             if body.j['kind'] == 'closure' and l == 1:
-                # closure environment: upvar index = first field projection
+                # closure environment: upvar index = first field projection; resolve it in the parent body
                 idx = None
                 for e in proj:
                     if isinstance(e, dict) and 'i' in e:
                         idx = e['i']
                         break
-                res.atoms.add(('upvar', idx))
+                resolved = False
+                if idx is not None and _depth < 3:
+                    parent_id = body.id.rsplit('::{closure#', 1)[0]
+                    parent = body.facts.bodies.get(parent_id)
+                    if parent is not None:
+                        for pbb in sorted(parent.live_blocks()):
+                            for st in parent.stmts(pbb):
+                                if 'assign' in st and st['rv']['k'] == 'agg' and st['rv'].get('agg') == 'closure' \
+                                        and st['rv']['closure'] == body.id and idx < len(st['rv']['ops']):
+                                    po = origin(parent, st['rv']['ops'][idx], through_calls, max_nodes, _depth + 1)
+                                    res.atoms |= po.atoms
+                                    res.flags |= po.flags | {'upvar'}
+                                    res.fields |= po.fields
+                                    res.calls += po.calls
+                                    resolved = True
+                if not resolved:
+                    res.atoms.add(('upvar', idx))
             else:
                 res.atoms.add(('param', l))
             continue
